@@ -89,7 +89,7 @@ CHECKS["C08"] = {
             "identity when no two records share kind and identifier; merge and conflict behaviour are computed Examples. "
             "The full merge specification (C08_spec_statement) is not yet proved: it is decided per run by the correspondence "
             "(model vs implementation on identifier-reuse programs) and an independent merge-specification oracle on the "
-            "implementation, incl. idempotence and source-unchanged (partial). Finding C08-F1 (Membership) is repaired in /repo (1eddd9a).",
+            "implementation, incl. idempotence and source-unchanged (partial). Known finding C08-F1 (same-identifier memberships that disagree on their member only; the prov:collection half is repaired in /repo, 1eddd9a).",
     "design_ref": "DESIGN.md §5 C08, §10",
     "technique": "Coq proofs (frame, identity case) + differential correspondence and independent merge oracle",
 }
@@ -308,7 +308,7 @@ CHECKS["C08"]["text"] = (
     "reachable world); idempotence: the records unified() returns are a fixed point, and in the document it returns no "
     "container has anything left to merge; raise only on conflict: in every reachable container, if unifying raises, the "
     "exception is ProvException and two records of one group hold unequal values under one formal attribute. The converse "
-    "(every conflict raises) is not proved (it was false for memberships: finding C08-F1, repaired in /repo) and is decided per run by the correspondence "
+    "(every conflict raises) is not proved (for memberships that disagree on prov:collection it is repaired in /repo; on the member only it is still false: known finding C08-F1) and is decided per run by the correspondence "
     "(model vs implementation on identifier-reuse programs) and an independent merge-specification oracle on the "
     "implementation, which also checks that the result shares no bundle object with the source and that writing to the "
     "result leaves the source alone.")
